@@ -161,6 +161,20 @@ pub fn read_snapshot<S: IndexedFull>(
             let mut buf = Vec::new();
             repo.dump(&node, &mut buf)
                 .map_err(|e| format!("dump {}: {}", path.display(), e.display_log()))?;
+            // the same dump into a writer which accepts a few bytes per call (a pipe, a socket): the
+            // bytes that arrive must be the same
+            let mut short = ShortWriter { out: Vec::with_capacity(buf.len()), per_call: 7 };
+            repo.dump(&node, &mut short)
+                .map_err(|e| format!("dump {} into a short-writing writer: {}", path.display(), e.display_log()))?;
+            if short.out != buf {
+                return Err(format!(
+                    "dump {}: a writer accepting 7 bytes per call received {} bytes, a Vec received {}{}",
+                    path.display(),
+                    short.out.len(),
+                    buf.len(),
+                    if short.out.len() == buf.len() { " (other bytes)" } else { "" }
+                ));
+            }
             if buf.len() as u64 != node.meta.size {
                 return Err(format!(
                     "dump {}: node size {} but {} bytes dumped",
@@ -200,4 +214,21 @@ pub fn diff(expected: &LTree, got: &LTree) -> Option<String> {
         }
     }
     None
+}
+
+/// a writer whose `write` takes at most `per_call` bytes, as `std::io::Write` allows
+struct ShortWriter {
+    out: Vec<u8>,
+    per_call: usize,
+}
+
+impl std::io::Write for ShortWriter {
+    fn write(&mut self, data: &[u8]) -> std::io::Result<usize> {
+        let n = data.len().min(self.per_call);
+        self.out.extend_from_slice(&data[..n]);
+        Ok(n)
+    }
+    fn flush(&mut self) -> std::io::Result<()> {
+        Ok(())
+    }
 }
